@@ -812,8 +812,10 @@ func (p *Process) setStateAndRun(state string, runnable func() error) error {
 	// A stop request cancels procRunCtx before it looks at the state (under
 	// stateMtx). Checking it here, under the same lock, closes the window in
 	// which a stop that arrived after the check in run() was lost and the
-	// command was launched (and never signalled) after the stop returned.
-	if p.procRunCtx.Err() != nil {
+	// command was launched (and never signalled) after the stop returned. The same
+	// goes for the mark that a stop or a project shutdown leaves before it gets to
+	// signal this process: a back-off wait that ends meanwhile must not relaunch it.
+	if p.procRunCtx.Err() != nil || p.isStopped.Load() {
 		return errProcessStopped
 	}
 	p.procState.Status = state
